@@ -236,7 +236,7 @@ class C04(runner.Check):
                 'exercised by other checks (see manifest note)']
 
     def explore(self, tier, seed):
-        nch, per = (16, 14) if tier == "quick" else (64, 30)
+        nch, per = (16, 14) if tier == "quick" else (64, 10)
         ex = Exploration()
         for part in runner.parallel(chunk, [(seed, i, per, tier) for i in range(nch)]):
             ex.merge(part)
@@ -534,7 +534,7 @@ _orig_replay = C04.replay
 
 def _explore(self, tier, seed):
     ex = _orig_explore(self, tier, seed)
-    nch, per = (16, 10) if tier == 'quick' else (32, 30)
+    nch, per = (16, 10) if tier == "quick" else (32, 10)
     for part in runner.parallel(na_chunk, [(seed, i, per, tier) for i in range(nch)]):
         ex.merge(part)
     return ex
